@@ -58,7 +58,16 @@ def corpus():
                      {"n": "r1", "of": r, "conns": [["p", {"k": "sig", "n": "a"}], ["n", {"k": "bref", "root": "dd", "path": ["n"]}]]}]}
     d4 = {"bundles": [copy.deepcopy(gen_design.DIFF)], "top": "Top", "modules": [mid, {"name": "Top", "sigs": [{"n": "v", "w": 1, "port": True, "dir": "none"}], "bundles": [{"n": "d", "of": "Diff", "port": False}],
           "insts": [{"n": "pm", "of": {"k": "module", "name": "Mid"}, "pair": ["p", "n"], "conns": [["a", {"k": "bundle", "n": "d"}], ["g", {"k": "sig", "n": "v"}]]}]}]}
-    return [{"design": d1, "style": "proc"}, {"design": d2, "style": "proc"}, {"design": d3, "style": "proc"}, {"design": d3, "style": "class"},
+    # a one-bit bus (the width-1 case of a parametric design) used whole and through every way of writing its only bit
+    one = lambda i: {"k": "slice", "p": {"k": "sig", "n": "bus"}, "i": i}
+    d6 = {"bundles": [], "top": "Top", "modules": [inner, {"name": "Top", "sigs": [{"n": "gnd", "w": 1, "port": True, "dir": "none"}, {"n": "bus", "w": 1, "port": False, "dir": "none"}], "bundles": [],
+          "insts": [{"n": "r0", "of": r, "conns": [["p", one({"i": 0})], ["n", {"k": "sig", "n": "gnd"}]]},
+                    {"n": "r1", "of": r, "conns": [["p", one({"i": -1})], ["n", {"k": "sig", "n": "gnd"}]]},
+                    {"n": "r2", "of": r, "conns": [["p", one({"s": 0, "e": 1, "st": None})], ["n", {"k": "sig", "n": "gnd"}]]},
+                    {"n": "r3", "of": r, "conns": [["p", one({"s": None, "e": None, "st": None})], ["n", {"k": "sig", "n": "gnd"}]]},
+                    {"n": "w", "of": {"k": "module", "name": "Inner"}, "conns": [["a", {"k": "sig", "n": "bus"}]]}]}]}
+    return [{"design": d6, "style": "proc"}, {"design": d6, "style": "gen"},
+            {"design": d1, "style": "proc"}, {"design": d2, "style": "proc"}, {"design": d3, "style": "proc"}, {"design": d3, "style": "class"},
             {"design": d4, "style": "proc"}, {"design": d4, "style": "gen"}, {"design": d5, "style": "proc"}, {"design": d5, "style": "class"}]
 
 
@@ -442,6 +451,175 @@ def judge_ib(case, im, mo):
 SIB = common.Stream("instbundle", impl_ib, line_ib, judge_ib, chunk=16)
 
 
+# ---- the array pass against ArrayPass.lean (theorems array_expansion / array_pass_accepts_iff / array_parts_partition) ----
+
+def gen_ap(rng):
+    n = rng.choice([1, 2, 2, 3, 3, 4, 5]) if rng.random() < 0.94 else rng.choice([0, -1])
+    nn = max(n, 0)
+    ports = [[f"p{i}", rng.choice([1, 1, 2, 3])] for i in range(rng.randint(1, 3))]
+    if rng.random() < 0.3:
+        ports.append(["bp", None])
+
+    def atom(w, depth=0):
+        r = rng.random()
+        if r < 0.4 or w == 0 or depth > 2:
+            return {"k": "sig", "n": f"s{w}", "w": w}
+        if r < 0.7:
+            extra = rng.randint(1, 3)
+            a = rng.randint(0, extra)
+            return {"k": "slice", "p": {"k": "sig", "n": f"s{w + extra}", "w": w + extra},
+                    "i": {"i": a} if w == 1 and rng.random() < 0.5 else {"s": a, "e": a + w, "st": None}}
+        if w >= 2:
+            k = rng.randint(1, w - 1)
+            return {"k": "concat", "ps": [atom(k, depth + 1), atom(w - k, depth + 1)]}
+        return {"k": "sig", "n": f"s{w}", "w": w}
+
+    conns = []
+    for pn, w in ports:
+        if rng.random() < 0.1:
+            continue
+        r = rng.random()
+        if w is None:
+            conns.append([pn, {"k": "bundle", "n": "b1"} if r < 0.8 else {"k": "sig", "c": atom(1)}])
+        elif r < 0.42:
+            conns.append([pn, {"k": "sig", "c": atom(w)}])
+        elif r < 0.84:
+            conns.append([pn, {"k": "sig", "c": atom(w * nn if nn else w)}])
+        elif r < 0.91:
+            cw = rng.choice([x for x in range(1, 2 + w * max(nn, 1) + 1) if x not in (w, w * nn)])
+            conns.append([pn, {"k": "sig", "c": atom(cw)}])
+        elif r < 0.94:
+            conns.append([pn, {"k": "portref"}])
+        elif r < 0.97:
+            conns.append([pn, {"k": "other"}])
+        else:
+            conns.append([pn, {"k": "bundle", "n": "b1"}])  # a bundle instance on a scalar port: this pass does not look
+    if rng.random() < 0.05:
+        conns.append(["zz", {"k": "sig", "c": atom(1)}])
+    extra = [nm for nm in ("arr_0", "arr_1", "arr_0_", "arr_2", "arr_1_") if rng.random() < 0.18]
+    return {"n": n, "ports": ports, "conns": conns, "ns": extra}
+
+
+def sigs_in(c, acc):
+    if c["k"] == "sig":
+        acc[c["n"]] = c["w"]
+    elif c["k"] == "slice":
+        sigs_in(c["p"], acc)
+    else:
+        for q in c["ps"]:
+            sigs_in(q, acc)
+    return acc
+
+
+def impl_ap(case):
+    from hdl21.elab.passes import ArrayFlattener
+    B = h.Bundle(name="Bap")
+    B.add(h.Signal(name="x"))
+    T = h.Module(name="Tap")
+    for pn, w in case["ports"]:
+        if w is None:
+            T.add(B(port=True), name=pn)
+        else:
+            T.add(h.Port(name=pn, width=w))
+    other = h.ExternalModule(name="Oap", port_list=[h.Port(name="q")], paramtype=h.HasNoParams)
+    m = h.Module(name="ApTop")
+    m.add(B(), name="b1")
+    oi = m.add(h.Instance(of=other(), name="oi"))
+    need = {}
+    for _, c in case["conns"]:
+        if c["k"] == "sig":
+            sigs_in(c["c"], need)
+    for nm, w in need.items():
+        m.add(h.Signal(name=nm, width=w))
+    for nm in case["ns"]:
+        m.add(h.Signal(name=nm))
+
+    def mk(c):
+        if c["k"] == "sig":
+            return m.get(c["n"])
+        if c["k"] == "slice":
+            i = c["i"]
+            return mk(c["p"])[i["i"]] if "i" in i else mk(c["p"])[i["s"]:i["e"]]
+        return h.Concat(*[mk(q) for q in c["ps"]])
+
+    kw = {}
+    try:
+        for pn, c in case["conns"]:
+            kw[pn] = {"sig": lambda: mk(c["c"]), "bundle": lambda: m.get(c.get("n")), "portref": lambda: oi.q,
+                      "other": lambda: h.AnonymousBundle(x=m.get("b1").x)}[c["k"]]()
+        m.add(case["n"] * T(**kw), name="arr")
+    except Exception as ex:  # noqa
+        return {"construct": common.errstr(ex)[-200:]}
+    before = list(m.namespace)
+    try:
+        ArrayFlattener.elaborate([m])
+    except Exception as ex:  # noqa
+        return {"raise": common.errstr(ex)[-200:], "type": type(ex).__name__}
+    elems = []
+    for nm, inst in m.instances.items():
+        if nm == "oi":
+            continue
+        row = []
+        for pn, c in inst.conns.items():
+            if isinstance(c, (h.Signal, h.Slice, h.Concat)):
+                row.append([pn, [[a, b] for a, b in pybits(c)]])
+            else:
+                row.append([pn, {"obj": type(c).__name__, "name": getattr(c, "name", None)}])
+        elems.append([nm, inst.name, row])
+    return {"ok": elems, "arrays": list(m.instarrays), "namespace": sorted(m.namespace), "before": sorted(before)}
+
+
+def line_ap(case):
+    return {"prop": "AP", "op": "expand", "array": "arr", "n": max(case["n"], 0), "ports": case["ports"], "conns": case["conns"],
+            "ns": ["b1", "oi"] + sorted(sigs_in_all(case)) + case["ns"]}
+
+
+def sigs_in_all(case):
+    need = {}
+    for _, c in case["conns"]:
+        if c["k"] == "sig":
+            sigs_in(c["c"], need)
+    return need
+
+
+def judge_ap(case, im, mo):
+    if "construct" in im:
+        yield ("corr", f"the array could not be written: {im['construct']}")
+        return
+    if "error" in mo:
+        if "ok" in im:
+            yield ("pred", f"an array the pass must refuse ({mo['error']}) was flattened: {im['ok']}")
+        return
+    if "raise" in im:
+        yield ("corr", f"a well-formed array was refused: {im['raise']}")
+        return
+    if im["arrays"]:
+        yield ("pred", f"arrays left after the pass: {im['arrays']}")
+        return
+    names = [e[0] for e in im["ok"]]
+    if names != mo["names"] or any(e[0] != e[1] for e in im["ok"]):
+        yield ("pred", f"element instances {[(e[0], e[1]) for e in im['ok']]}, the model says {mo['names']}")
+        return
+    if sorted(set(im["before"]) - {"arr"} | set(names)) != im["namespace"]:
+        yield ("pred", f"namespace after the pass {im['namespace']}; before {im['before']}, elements {names}")
+        return
+    for k, ((nm, _, row), es) in enumerate(zip(im["ok"], mo["ok"])):
+        if [p for p, _ in row] != [p for p, _, _ in es]:
+            yield ("pred", f"element {k}: ports {[p for p, _ in row]}, the array has {[p for p, _, _ in es]}")
+            return
+        for (p, got), (_, e, bits) in zip(row, es):
+            if "bundle" in e:
+                if got != {"obj": "BundleInstance", "name": e["bundle"]}:
+                    yield ("pred", f"element {k} port {p}: {got} instead of bundle instance {e['bundle']}")
+                    return
+            elif bits is None or got != bits:
+                yield ("pred", {"why": f"element {k} ({nm}) port {p}: bits differ from the model's {'part' if 'part' in e else 'whole'}", "impl": got, "model": bits})
+                return
+
+
+SAP = common.Stream("arraypass", impl_ap, line_ap, judge_ap, chunk=16)
+
+
 def judge_f2(case, im, mo):
     res = mo["res"]
     ports = [tuple(x) for x in case["ports"]]
@@ -526,6 +704,8 @@ def run(ctx):
     SF2C.run(ctx, [gen_f2c(ctx.rng) for _ in range(200 if ctx.quick else 4000)])
     # the instance-bundle pass against InstBundle.lean (theorem instbundle_expansion)
     SIB.run(ctx, [gen_ib(ctx.rng) for _ in range(300 if ctx.quick else 6000)])
+    # the array pass alone against ArrayPass.lean (theorems array_expansion / array_pass_accepts_iff / array_parts_partition)
+    SAP.run(ctx, [gen_ap(ctx.rng) for _ in range(300 if ctx.quick else 6000)])
     rep.extra["design_stats"] = stats
     rep.sample({"design": cases[2]["design"], "style": cases[2]["style"]})
 
